@@ -33,6 +33,10 @@ pub struct Program {
     pub threads: Vec<Vec<TOp>>,
     pub first: u8,
     pub schedule: Vec<u8>,
+    /// sequential prelude before the threads start: this many orders (fresh reserved ids) are
+    /// added and cancelled again, leaving that many dead tickets in the queue
+    #[serde(default)]
+    pub churn: u16,
 }
 
 impl Program {
@@ -127,7 +131,16 @@ pub fn program(cfg: ProgCfg) -> BoxedStrategy<Program> {
         any::<u8>(),
         sched::schedule(cfg.schedule_len),
     )
-        .prop_map(|(price, preload, threads, first, schedule)| Program { price, preload, threads, first, schedule })
+        .prop_flat_map(|(price, preload, threads, first, schedule)| {
+            let churn = prop_oneof![
+                8 => Just(0u16),
+                1 => 1u16..=8,
+                1 => 30u16..=40,
+                1 => 62u16..=70,
+                1 => 126u16..=134,
+            ];
+            churn.prop_map(move |churn| Program { price, preload: preload.clone(), threads: threads.clone(), first, schedule: schedule.clone(), churn })
+        })
         .boxed()
 }
 
@@ -200,6 +213,13 @@ pub fn execute(p: &Program, with_probes: bool) -> Execution {
         supplied += o.visible_quantity() as u128 + o.hidden_quantity() as u128;
         level.add_order(o);
         initial.push(o);
+    }
+    // prelude (sequential, before any managed thread exists): dead tickets
+    let churn_spec = OrderSpec { kind: Kind::Standard, display: 1, hidden: 0, buy: false, tif: Tif::Gtc, ts: 50, threshold: 0, amount: None, auto: false, trail: 0, lastref: 0, offset: 0, peg: 0 };
+    for k in 0..p.churn {
+        let id = OrderId::from_u64(0xC0_0000_0000 + k as u64);
+        level.add_order(churn_spec.build(id, p.price));
+        let _ = level.update_order(OrderUpdate::Cancel { order_id: id });
     }
     let generator = UuidGenerator::new(uuid::Uuid::from_u128(0xC0FFEE));
     let world = Mutex::new(World {
@@ -582,8 +602,9 @@ pub fn judge(p: &Program, ex: &Execution, drain: bool) -> Judgement {
     let listing = agg(level, "after all threads returned", &mut v);
     // ---- C15: statistics vs events
     {
-        let adds = ex.initial.len() + ex.calls.iter().filter(|c| matches!(c.result, CallResult::Added)).count();
-        let removed = ex
+        let adds = p.churn as usize + ex.initial.len() + ex.calls.iter().filter(|c| matches!(c.result, CallResult::Added)).count();
+        let removed = p.churn as usize
+            + ex
             .calls
             .iter()
             .filter(|c| matches!(c.op, TOp::Cancel(_) | TOp::Move(_)) && matches!(c.result, CallResult::Updated(Ok(Some(_)))))
